@@ -284,6 +284,15 @@ pub struct FileMetadata {
     pub modified: Option<std::time::SystemTime>,
 }
 
+/// Verification hook: public access to the deletion predicate (compiled only with
+/// `--cfg thwbh_tauri_typegen_verif`)
+#[cfg(thwbh_tauri_typegen_verif)]
+impl OutputManager {
+    pub fn verif_is_generated_file(&self, filename: &str) -> bool {
+        self.is_generated_file(filename)
+    }
+}
+
 #[cfg(test)]
 mod tests {
     use super::*;
